@@ -53,7 +53,6 @@ PROBES = [
     "fault_pool_memerror_fired",
     "fs_errno_fired",
     "fs_errno_in_writer_process",
-    "deadlock_detected",
     "control_fault_free",
 ]
 REAL_VS_STUB = dict(
@@ -88,7 +87,7 @@ def _base(prng: Prng, workers: int, **kw) -> dict:
 
 
 def gen_cases(tier: str, verif_seed: int, runs: int | None = None) -> list[dict]:
-    reps = 1 if tier == "quick" else 40
+    reps = 4 if tier == "quick" else 60
     cases = []
     i = 0
 
